@@ -2,7 +2,7 @@
    Model/Diagnostics.v is the executable reading over exact rationals; each run Coq compares it
    with the implementation's floats (tolerance) on generated observation sets. *)
 From Coq Require Import QArith ZArith List Bool Arith Permutation.
-From TJ Require Import Base.Corr Base.XQ Base.ArgMax Model.Diagnostics Proofs.DiagProofs.
+From TJ Require Import Base.Corr Base.XQ Base.ArgMax Model.Diagnostics Proofs.DiagProofs Proofs.DiagReverse.
 Import ListNotations.
 Open Scope Q_scope.
 
@@ -39,6 +39,14 @@ Proof. exact (mpg_perm_invariant tref P ts ts'). Qed.
 Theorem C19_coverage_order_independent tref P n ts ts' :
   Permutation ts ts' -> phase_coverage tref P n ts = phase_coverage tref P n ts'.
 Proof. exact (coverage_perm_invariant tref P n ts ts'). Qed.
+(* time reversal of the observing pattern, t -> a - t (a arbitrary, e.g. t_max + t_min), with ANY reference epochs before and
+   after: the largest empty arc is the same number; in particular it does not depend on the reference epoch at all *)
+Theorem C19_mpg_time_reversal tref tref0 P a ts :
+  ~ P == 0 -> max_phase_gap tref P (map (fun t => a - t) ts) == max_phase_gap tref0 P ts.
+Proof. exact (mpg_time_reversal tref tref0 P a ts). Qed.
+Theorem C19_mpg_shift_invariant tref tref' P ts :
+  ~ P == 0 -> max_phase_gap tref P ts == max_phase_gap tref' P ts.
+Proof. exact (mpg_shift_invariant tref tref' P ts). Qed.
 Theorem C19_coverage_counts_bins n ph : (occupied n ph <= n)%nat.
 Proof. exact (occupied_le n ph). Qed.
 
@@ -51,6 +59,8 @@ Proof. exact (map_index_spec l). Qed.
 
 (* non-vacuity: phases .4 .5 .6 -- the largest empty arc is the one across the wrap, 0.8 *)
 Example C19_ex_wrap : max_phase_gap 0 1 [(4#10); (6#10); (5#10)] == (8#10).
+Proof. vm_compute. reflexivity. Qed.
+Example C19_ex_reversal : max_phase_gap 0 1 (map (fun t => (7#2) - t) [(4#10); (6#10); (5#10)]) == (8#10).
 Proof. vm_compute. reflexivity. Qed.
 Example C19_ex_map : map_index [XFin (1#1); XNInf; XFin (0#1); XFin (2#1)] [XFin (1#1); XFin (9#1); XFin (3#1); XFin (1#1)] = 2%nat.
 Proof. vm_compute. reflexivity. Qed.
@@ -66,5 +76,7 @@ Print Assumptions C19_mpg_bounds.
 Print Assumptions C19_phase_range.
 Print Assumptions C19_mpg_order_independent.
 Print Assumptions C19_coverage_order_independent.
+Print Assumptions C19_mpg_time_reversal.
+Print Assumptions C19_mpg_shift_invariant.
 Print Assumptions C19_coverage_counts_bins.
 Print Assumptions C19_map_is_max.
